@@ -1,7 +1,7 @@
 import os
 from .common import TRUSTED_BASE_COMMON
 # C18_CASES: smaller budget for mutation experiments (tools/with_mutation.sh)
-_N = int(os.environ.get("C18_CASES", "2000"))
+_N = int(os.environ.get("C18_CASES", "1200"))
 THEOREMS = [
     "C18_constants", "C18_opcode_table_matches_spec", "C18_arity_discipline", "C18_pop_many_in_bounds",
     "C18_step_total", "C18_run_terminates_or_fuel", "C18_run_outcome_defined",
